@@ -47,6 +47,8 @@ def run(ctx):
         marked = pool.map_on("engines.gwork:eval_marked", [{}, {}], [ctx.seed, ctx.seed + 1])
         from .twork import run_family
         tviol, tstats = run_family(pool, ctx, vs=(1,))
+        # "built in another process": the configuration written out and loaded back (stored identifiers kept by the loader)
+        reloaded = pool.map("engines.gwork:eval_c12", [{"G": d, "route": "json-keepid"} for d in descs])
     requests = sum(o["requests"] for o in outs)
     histories = sum(o["histories"] for o in outs)
     sigs = set()
@@ -83,6 +85,11 @@ def run(ctx):
             res.violation("identifier:marked-parameter", f"(embedder, leaf value, producing task) {sg}: identifier {a['id'][:16]} when the parameter's identifier "
                           f"is requested '{a['hist']}', {b['id'][:16]} when '{b['hist']}'", {"marked": [a, b]})
     requests_marked = sum(len(rows) for rows in marked)
+    for d, o in zip(descs, reloaded):
+        for p in o["problems"]:
+            if p["kind"] == "identifier-differs":
+                res.violation(f"identifier:reloaded:{p.get('where', 'root')}", f"written out and loaded back (identifiers kept by the loader), {p.get('where', 'root')}: "
+                              f"{str(p.get('before'))[:16]} -> {str(p.get('after'))[:16]} {p.get('nodes') or ''} for {json.dumps(d)[:500]}", {"G": d, "reloaded": p})
     # two user threads (real threads, every schedule with <= 1 preemption at the traced line / call events)
     for kind, key, msg, payload in tviol:
         if kind != "collision":
@@ -94,7 +101,8 @@ def run(ctx):
             res.violation(f"pinned:{graph_kind(p['G'])}", f"pinned identifier {p['id'][:16]} of {json.dumps(p['G'])[:500]} is now {o.get('id') or o.get('error')}",
                           {"G": p["G"], "pinned": p["id"], "now": o})
     res.coverage = {
-        "evaluations": requests + requests_marked + tstats["executions"],
+        "evaluations": requests + requests_marked + tstats["executions"] + len(reloaded),
+        "reloaded_descriptions": len(reloaded),
         "two_threads_family": tstats,
         "marked_parameter_family": {"cases": requests_marked, "distinct_contents": len(msig)},
         "distinct_nontrivial": len(sigs),
@@ -130,6 +138,12 @@ def replay(ctx, payload):
     if "threads" in payload:
         from . import twork
         return twork.replay(payload)
+    if "reloaded" in payload:
+        from . import gwork
+        gwork.init()
+        print(json.dumps(payload["G"]))
+        print(gwork.eval_c12({"G": payload["G"], "route": "json-keepid"}))
+        return 0
     G = payload["G"]
     print("description:", json.dumps(G))
     h = payload.get("history")
